@@ -443,29 +443,36 @@ Proof. intros H. rewrite (build_wf R H). apply d_exists_In. Qed.
 Lemma wf_identical R i : WF R -> (d_identical (build R) i = true <-> In i (ids R)).
 Proof. intros H. rewrite (build_wf R H). apply d_identical_In. Qed.
 
+Lemma reg_step_from_spec R b r R' N : reg_step_from R b r = (R', N) ->
+  exists t a, t <= S (List.length R) /\ N = candi b t /\
+    (forall s, s < t -> busy (build R) (idf r) (candi b s)) /\
+    final (build R) (idf r) N a /\ R' = (if a then R ++ [(N, idf r N)] else R) /\
+    fix_unique R b (idf r) = FU N a.
+Proof.
+  unfold reg_step_from. destruct (fix_unique R b (idf r)) as [nm a|] eqn:E.
+  - destruct (fu_sound _ _ _ _ _ _ E) as [t [Ht [Hn [Hb Hf]]]]. intros H. exists t, a.
+    destruct a; injection H as <- <-; repeat (split; try assumption); reflexivity.
+  - exfalso. exact (fix_unique_total _ _ _ E).
+Qed.
 Lemma reg_step_spec R r R' N : reg_step R r = (R', N) ->
   exists t a, t <= S (List.length R) /\ N = candi (base_name r) t /\
     (forall s, s < t -> busy (build R) (idf r) (candi (base_name r) s)) /\
     final (build R) (idf r) N a /\ R' = (if a then R ++ [(N, idf r N)] else R) /\
     fix_unique R (base_name r) (idf r) = FU N a.
-Proof.
-  unfold reg_step. destruct (fix_unique R (base_name r) (idf r)) as [nm a|] eqn:E.
-  - destruct (fu_sound _ _ _ _ _ _ E) as [t [Ht [Hn [Hb Hf]]]]. intros H. exists t, a.
-    destruct a; injection H as <- <-; repeat (split; try assumption); reflexivity.
-  - exfalso. exact (fix_unique_total _ _ _ E).
-Qed.
+Proof. apply reg_step_from_spec. Qed.
 
 Lemma incl_names R R' : incl R R' -> incl (names R) (names R').
 Proof. intros H n Hn. apply in_names in Hn. destruct Hn as [i Hi]. apply in_names. exists i. exact (H _ Hi). Qed.
 
-Lemma reg_step_wf R r R' N : WF R -> clean_req r -> reg_step R r = (R', N) ->
-  WF R' /\ incl R R' /\ In (N, idf r N) R' /\ exists t, N = candi (base_name r) t.
+(* whatever clean name the object carries when the registry is consulted *)
+Lemma reg_step_from_wf R b r R' N : WF R -> clean b -> reg_step_from R b r = (R', N) ->
+  WF R' /\ incl R R' /\ In (N, idf r N) R' /\ exists t, N = candi b t.
 Proof.
-  intros W C H. destruct (reg_step_spec _ _ _ _ H) as [t [a [_ [Hn [_ [Hf [HR _]]]]]]].
+  intros W C H. destruct (reg_step_from_spec _ _ _ _ _ H) as [t [a [_ [Hn [_ [Hf [HR _]]]]]]].
   destruct a; simpl in Hf; subst R'.
   - destruct Hf as [_ Hx]. split; [|split; [|split]].
     + apply WF_snoc. split; [exact W|]. split.
-      * split; [|exists r; reflexivity]. simpl. rewrite Hn. apply candi_clean. apply base_name_clean. exact C.
+      * split; [|exists r; reflexivity]. simpl. rewrite Hn. apply candi_clean. exact C.
       * simpl. intros Hin. apply (wf_exists R N W) in Hin. congruence.
     + apply incl_appl. apply incl_refl.
     + apply in_or_app. right. left. reflexivity.
@@ -473,6 +480,9 @@ Proof.
   - split; [exact W|]. split; [apply incl_refl|]. split; [|exists t; exact Hn].
     apply (wf_identical R _ W) in Hf. apply WF_id_in; assumption.
 Qed.
+Lemma reg_step_wf R r R' N : WF R -> clean_req r -> reg_step R r = (R', N) ->
+  WF R' /\ incl R R' /\ In (N, idf r N) R' /\ exists t, N = candi (base_name r) t.
+Proof. intros W C. apply reg_step_from_wf; [exact W|apply base_name_clean; exact C]. Qed.
 
 Lemma reg_run_app R h1 h2 :
   reg_run R (h1 ++ h2) =
@@ -527,7 +537,7 @@ Proof.
         apply (wf_exists R _ W). exact He.
     - simpl. apply (wf_identical R2 _ W2). rewrite <- Hn.
       change (In (snd (N, idf r N)) (map snd R2)). apply in_map. exact (I _ B1). }
-  unfold reg_step. rewrite F. reflexivity.
+  unfold reg_step, reg_step_from. rewrite F. reflexivity.
 Qed.
 
 (* ================================================================== which property fields the identity determines *)
@@ -629,7 +639,10 @@ Proof.
 Qed.
 
 (* ================================================================== the directory invariant *)
-Definition clean_op (o : op) : Prop := clean_req (o_req o).
+Definition clean_op (o : op) : Prop :=
+  clean_req (o_req o) /\ match o_start o with Some b => clean b | None => True end.
+Lemma clean_op_start o : clean_op o -> clean (op_start o).
+Proof. intros [C S]. unfold op_start. destruct (o_start o); [exact S|apply base_name_clean; exact C]. Qed.
 (* an output file is named after its owner and method, and the owner's registry line is the
    identity of the request that produced it *)
 Definition out_ok (R : registry) (f : file) : Prop :=
@@ -672,8 +685,8 @@ Proof.
 Qed.
 
 (* the stages of exec_op, named *)
-Definition ex_N (st : state) (o : op) : str := snd (reg_step (st_reg st) (o_req o)).
-Definition ex_R (st : state) (o : op) : registry := fst (reg_step (st_reg st) (o_req o)).
+Definition ex_N (st : state) (o : op) : str := snd (reg_step_from (st_reg st) (op_start o) (o_req o)).
+Definition ex_R (st : state) (o : op) : registry := fst (reg_step_from (st_reg st) (op_start o) (o_req o)).
 Definition ex_outF (st : state) (o : op) : str := ex_N st o ++ out_ext (rq_method (o_req o)).
 Definition ex_inputs (st : state) (o : op) : list str := (ex_N st o ++ in_ext (rq_method (o_req o))) :: o_aux o.
 Definition ex_fs1 (st : state) (o : op) : fsys := stage_inputs (ex_N st o) (ex_inputs st o) (st_fs st).
@@ -692,8 +705,8 @@ Proof. reflexivity. Qed.
 Lemma ex_step_wf st o : Inv st -> clean_op o ->
   WF (ex_R st o) /\ incl (st_reg st) (ex_R st o) /\ In (ex_N st o, idf (o_req o) (ex_N st o)) (ex_R st o).
 Proof.
-  intros [W _] C. unfold ex_R, ex_N. destruct (reg_step (st_reg st) (o_req o)) as [R1 N] eqn:E.
-  destruct (reg_step_wf _ _ _ _ W C E) as [W1 [I1 [B1 _]]]. simpl. tauto.
+  intros [W _] C. unfold ex_R, ex_N. destruct (reg_step_from (st_reg st) (op_start o) (o_req o)) as [R1 N] eqn:E.
+  destruct (reg_step_from_wf _ _ _ _ _ W (clean_op_start o C) E) as [W1 [I1 [B1 _]]]. simpl. tauto.
 Qed.
 Lemma ex_fs2_ok st o : Inv st -> clean_op o -> Forall (out_ok (ex_R st o)) (ex_fs2 st o).
 Proof.
@@ -1144,7 +1157,7 @@ Definition w_req (nm kw : string) (sp : species) (pcs : option (list pcharge)) :
    normally: they SHARE a name, the second one is not executed and takes over the first one's
    result *)
 Definition shares (ra rb : request) : Prop :=
-  let res := snd (run_ops init_state [mkOp ra ONormal CNone []; mkOp rb ONormal CNone []]) in
+  let res := snd (run_ops init_state [mkOp ra ONormal CNone [] None; mkOp rb ONormal CNone [] None]) in
   map ob_name res = [snd (reg_step [] ra); snd (reg_step [] ra)] /\
   map ob_invoked res = [true; false] /\
   map ob_energy res = [Some ra; Some ra].
@@ -1186,6 +1199,6 @@ Definition hashed_decimals : nat :=
 Definition w_dist (q : rat) : species := mkSpecies (s2l "m") 0 1 [s2l "O"; s2l "H"; s2l "H"] None [] [(0, 1, q)].
 Definition w_eps : rat := ((4 * 10 ^ Z.of_nat hashed_decimals + 1)%Z, Z.to_pos (4 * 10 ^ Z.of_nat hashed_decimals)).
 Definition w_ops : list op :=
-  [mkOp (w_req "a" "SPKeywords('k1')" w_sp None) ONormal CNone [];
-   mkOp (w_req "a" "SPKeywords('k2')" w_sp None) ONormal CNone []].
-Definition w_clean : op := mkOp (w_req "a" "SPKeywords('k1')" w_sp None) ONormal CEverything [].
+  [mkOp (w_req "a" "SPKeywords('k1')" w_sp None) ONormal CNone [] None;
+   mkOp (w_req "a" "SPKeywords('k2')" w_sp None) ONormal CNone [] None].
+Definition w_clean : op := mkOp (w_req "a" "SPKeywords('k1')" w_sp None) ONormal CEverything [] None.
